@@ -302,10 +302,34 @@ func (rn *runner) bigWrapCase(g *gen) {
 			bz.DivMod(bx, by, bm)
 			return descApd(z) + "|" + descApd(&mm) + "/" + canon(z) + canon(&mm) + " " + descBig(bz) + "|" + descBig(bm)
 		case "Exp":
-			e := big.NewInt(int64(g.r.Intn(6)))
+			// exponent small, zero or negative; modulus nil, zero, positive or NEGATIVE (math/big reduces modulo |m|;
+			// nil and 0 mean "no modulus"; a negative exponent needs an inverse, else the result is nil)
+			var mod *big.Int
+			switch k % 4 {
+			case 1:
+				mod = new(big.Int)
+			case 2:
+				mod = new(big.Int).Abs(by)
+			case 3:
+				mod = new(big.Int).Neg(new(big.Int).Abs(by))
+			}
+			e := big.NewInt(int64(k%9) - 2)
+			if mod != nil && mod.Sign() != 0 {
+				e = big.NewInt(int64(k*7) - 300)
+			}
 			ae := new(apd.BigInt).SetMathBigInt(e)
-			z.Exp(x, ae, nil)
-			bz.Exp(bx, e, nil)
+			var am *apd.BigInt
+			if mod != nil {
+				am = new(apd.BigInt).SetMathBigInt(mod)
+			}
+			r1 := z.Exp(x, ae, am)
+			r2 := bz.Exp(bx, e, mod)
+			if (r1 == nil) != (r2 == nil) {
+				return "nildiffers skip"
+			}
+			if r1 == nil {
+				return "skip skip"
+			}
 		case "GCD":
 			ax, ay := new(big.Int).Abs(bx), new(big.Int).Abs(by)
 			if ax.Sign() == 0 || ay.Sign() == 0 {
